@@ -8,7 +8,10 @@
           as its TrafficLogger, every LogTraffic / LogOnlineState call recorded at the logger
           boundary): the server events in the order they were observed, each with the recorded
           answer, and "is this connection still usable" probes; the world model of
-          model/C15_Sites.v must give the same answers, event by event. *)
+          model/C15_Sites.v must give the same answers, event by event.  Histories in which a
+          connection is closed (or its request cancelled) while its auth is pending are replayed in the
+          auth handler's atomic steps (EAuthBegin / EClientClose / EAuthDecide / EAnnounce /
+          EHandlerReturn), each with the notifications recorded for it (WN). *)
 From Hy Require Import lib.Harness lib.Lin model.C15_Stats model.C15_Sites.
 From Coq Require Import ZArith String.
 Local Open Scope N_scope.
@@ -49,7 +52,19 @@ Definition c15_spec (secret : string) : spec :=
 (* one observation of an end-to-end run *)
 Inductive wobs :=
 | WE (e : wevent) (r : wresp)      (* a server event and what was observed as its answer *)
-| WAlive (slot : nat) (b : bool).  (* did a proxy attempt on that connection succeed? *)
+| WAlive (slot : nat) (b : bool)   (* did a proxy attempt on that connection succeed? *)
+| WN (e : wevent) (ns : list (id * bool)).
+                                   (* a server event that was enabled, and the LogOnlineState calls the
+                                      logger boundary recorded for that connection at that point (auth
+                                      handler steps and handleClient's continuation of a connection that
+                                      was closed / cancelled while its auth was pending) *)
+
+Fixpoint notes_eqb (a b : list (id * bool)) : bool :=
+  match a, b with
+  | [], [] => true
+  | (i, x) :: s, (j, y) :: t => (i =? j) && Bool.eqb x y && notes_eqb s t
+  | _, _ => false
+  end.
 
 Definition wresp_eqb (a b : wresp) : bool :=
   match a, b with
@@ -66,6 +81,9 @@ Fixpoint world_check (secret : string) (w : world) (l : list wobs) : bool :=
       let (w', r) := wstep secret w e in
       wresp_eqb r obs && world_check secret w' t
   | WAlive slot b :: t => Bool.eqb (is_open slot w) b && world_check secret w t
+  | WN e ns :: t =>
+      let (w', r) := wstep secret w e in
+      wresp_eqb r WUnit && notes_eqb (map snd (wnote w e)) ns && world_check secret w' t
   end.
 
 Inductive case :=
